@@ -27,6 +27,9 @@ EXPLANATION = ('IDX unit inference over pitches_to_chord_symbol and its helper; 
 TRUSTED = ['major-scale oracle', 'constant folding', 're._parser']
 NOT_DECIDED = ['the round trip over all 24 576 (pitch-class set, bass) cases - that is enumeration by execution', 'assert statements are not analysed (open world)']
 ASSUMPTIONS = []
+# rules whose verdict does not depend on how the statements are arranged (semantic analyses); all other rules are shape rules:
+# when one of those fails in a function that was restructured relative to reference/signatures.json the verdict is "cannot decide"
+ROBUST = ('TAB',)
 FLOORS = {'IDX': 4, 'VOCAB': 8, 'SEVENTH': 2, 'TAB': 25, 'ESC': 4, 'KEYERR': 4, 'SHAPE': 3}
 
 MAJOR = {1: 0, 2: 2, 3: 4, 4: 5, 5: 7, 6: 9, 7: 11}
@@ -236,10 +239,10 @@ def vocab(ctx, mi, T):
     bad = sorted(e for e in emitted if e not in keys)
     ok = not bad
     ctx.ob('VOCAB/prefix', fi, f, ok, 'format %r emits prefixes %s, all understood by the reader' % (s, sorted(emitted)) if ok else
-           'format %r can emit modification prefixes %s that the reader table _DEGREE_MODIFICATIONS (%s) does not know' % (s, bad, sorted(keys)))
+           'format %r can emit modification prefixes %s that the reader table _DEGREE_MODIFICATIONS (%s) does not know' % (s, bad, sorted(keys)), depends=VOCAB_DEPS(ctx))
     for e in sorted(emitted):
       okm = bool(pat.match('(%s7)' % e))
-      ctx.ob('VOCAB/regex', fi, f, okm, '(%s<n>) matches _MODIFICATION_PATTERN' % e if okm else '(%s<n>) is not matched by _MODIFICATION_PATTERN' % e, construct='(%s<n>) ~ _MODIFICATION_PATTERN' % e)
+      ctx.ob('VOCAB/regex', fi, f, okm, '(%s<n>) matches _MODIFICATION_PATTERN' % e if okm else '(%s<n>) is not matched by _MODIFICATION_PATTERN' % e, construct='(%s<n>) ~ _MODIFICATION_PATTERN' % e, depends=VOCAB_DEPS(ctx))
   # S3: one-sided special case
   rd = ctx.func('chord_symbols_lib:_add_scale_degree')
   rsp = None
@@ -269,6 +272,12 @@ def vocab(ctx, mi, T):
   ok = all(row[0] and row[0][0] in T['_CHORD_KINDS_BY_ABBREV'] for row in T['_CHORD_KINDS'])
   ctx.ob('VOCAB/kind', mi, mi.assigns['_CHORD_KINDS_BY_ABBREV'][0], ok, 'every first abbreviation is a parser key' if ok else 'some kind row\'s first abbreviation is not in _CHORD_KINDS_BY_ABBREV',
          construct='first abbreviations are keys of _CHORD_KINDS_BY_ABBREV')
+
+
+def VOCAB_DEPS(ctx):
+  """functions whose arrangement the writer-vocabulary rules read besides _degrees_to_modifications"""
+  return [ctx.func('chord_symbols_lib:_largest_chord_kind_from_degrees'), ctx.func('chord_symbols_lib:_largest_chord_kind_from_relative_pitches'),
+          ctx.func('chord_symbols_lib:pitches_to_chord_symbol')]
 
 
 def alter_branch_unreachable(ctx):
